@@ -228,9 +228,13 @@ theorem TriA.functionChanged {n : String} (w : Nat) (old : Option Obj) : TriA n 
     · exact TriA.pure trivial
   · exact TriA.pure trivial
 
+theorem TriA.rootBindsFunc {n : String} (m : String) : TriA n (E.rootBindsFunc m) (fun _ => True) :=
+  TriA.of_readOnly (fun _ => rfl)
+
 theorem TriA.envCreate {n m : String} (hm : m ≠ n) (e : Nat) (val : Obj) : TriA n (envCreate e m val) (fun _ => True) := by
   unfold E.envCreate
   refine TriA.bind (TriA.valueOf val) (fun v hv => ?_)
+  refine TriA.bind (TriA.rootBindsFunc m) (fun rb _ => ?_)
   refine TriA.bind (TriA.modifyFrame e (fun f hs => goodUpd_set hm hs (notRef_names hv))) (fun _ _ => TriA.pure trivial)
 
 theorem TriA.envStoreAt {n m : String} (hm : m ≠ n) (w e : Nat) {val : Obj} (hv : NotRef val) :
@@ -238,6 +242,7 @@ theorem TriA.envStoreAt {n m : String} (hm : m ≠ n) (w e : Nat) {val : Obj} (h
   unfold E.envStoreAt
   refine TriA.bind (TriA.getFrame e) (fun fr _ => ?_)
   refine TriA.bind (TriA.functionChanged w _) (fun _ _ => ?_)
+  refine TriA.bind (TriA.rootBindsFunc m) (fun rb _ => ?_)
   exact TriA.bind (TriA.modifyFrame e (fun f hs => goodUpd_set hm hs (notRef_names hv))) (fun _ _ => TriA.pure trivial)
 
 /-- the result, if a reference, carries the name `m` -/
@@ -379,6 +384,7 @@ theorem TriA.setNoChecks {n m : String} (hm : m ≠ n) (e : Nat) (val : Obj) (cr
         refine TriA.bind (TriA.valueOf val) (fun v hv => ?_)
         refine TriA.bind (TriA.getFrame re) (fun fr _ => ?_)
         refine TriA.bind (TriA.functionChanged e _) (fun _ _ => ?_)
+        refine TriA.bind (TriA.rootBindsFunc rn) (fun rb _ => ?_)
         exact TriA.bind (TriA.modifyFrame re (fun f hs =>
           ⟨rfl, lookupStore_setStore_ne _ _ _ _ (Ne.symm hm), refNamesStore_setStore hs (notRef_names hv)⟩)) (fun _ _ => TriA.pure trivial)
       · exact TriA.envCreate hm e val
